@@ -134,7 +134,9 @@ class Env:
         return getattr(self, "modnames", {}).get(m) or f"verif_{self.uid}_{m}"
 
     def filename(self, m: str) -> str:
-        return f"/verif-generated/{self.modname(m)}.py"
+        # (`filedir` lets a driver place the generated modules in a directory of its choice, e.g. one whose name contains the
+        # library's name)
+        return f"{getattr(self, 'filedir', '/verif-generated')}/{self.modname(m)}.py"
 
     def render(self, t: dict, home: str) -> str:
         """Source text of a type term as seen from module `home`."""
